@@ -925,7 +925,7 @@ fn scenario_logthread(sc: &str) -> Result<Violations, String> {
     Oplog::clean_op_log_metadata_files();
     let _ = std::fs::remove_file(format!("{}/keys-nun.keys", dir));
     let (sender, _receiver): (Sender<String>, Receiver<String>) = channel(1000);
-    let dbs = Arc::new(Databases::new("".into(), "".into(), "me:1".into(), "me:1".into(), sender.clone(), sender.clone(), HashMap::new(), 1, false));
+    let dbs = Arc::new(Databases::new("".into(), "".into(), "0.0.0.0:1".into(), "me:1".into(), sender.clone(), sender.clone(), HashMap::new(), 1, false));
     let role = if p[0] == "P" { ClusterRole::Primary } else { ClusterRole::StartingUp };
     dbs.node_state.swap(role as usize, std::sync::atomic::Ordering::Relaxed);
     let db_id = dbs.next_db_id();
@@ -1246,7 +1246,7 @@ fn scenario_traffic(sc: &str) -> Result<Violations, String> {
     let (s1, r1): (Sender<String>, Receiver<String>) = channel(1000);
     let (s2, mut rrx): (Sender<String>, Receiver<String>) = channel(1000);
     std::mem::forget(r1);
-    let dbs = Arc::new(Databases::new("u".into(), "p".into(), "me:1".into(), "me:1".into(), s1, s2, HashMap::new(), 1, true));
+    let dbs = Arc::new(Databases::new("u".into(), "p".into(), "0.0.0.0:1".into(), "me:1".into(), s1, s2, HashMap::new(), 1, true));
     dbs.node_state.swap(ClusterRole::Primary as usize, std::sync::atomic::Ordering::Relaxed);
     let w = World { dbs: dbs.clone() };
     let (mut admin, mut arx) = Client::new_empty_and_receiver();
@@ -1334,7 +1334,7 @@ fn scenario_traffic_cluster(strategy: &str, steps: &[(&str, &str)]) -> Result<Vi
         let (s1, r1): (Sender<String>, Receiver<String>) = channel(1000);
         let (s2, r2): (Sender<String>, Receiver<String>) = channel(1000);
         std::mem::forget(r1);
-        let d = Arc::new(Databases::new("u".into(), "p".into(), me.into(), me.into(), s1, s2, HashMap::new(), 1, true));
+        let d = Arc::new(Databases::new("u".into(), "p".into(), format!("0.0.0.0:{}", me.len()), me.into(), s1, s2, HashMap::new(), 1, true));
         d.node_state.swap(ClusterRole::Primary as usize, std::sync::atomic::Ordering::Relaxed);
         let w = World { dbs: d.clone() };
         let (mut admin, mut arx) = Client::new_empty_and_receiver();
@@ -2142,7 +2142,10 @@ fn scenario_election(sc: &str) -> Result<Violations, String> {
         dbs.add_cluster_member(ClusterMember { name: "other:1".into(), role: ClusterRole::Secoundary, sender: None });
     }
     let mut v: Violations = vec![];
-    let forced = p[3] == "new";
+    // "yield": a forced election with the registering helper (2r); while the node waits for the acknowledgement that never comes, an OLDER node's candidacy arrives and makes it a
+    // secondary: it has stood down and must not claim when its wait times out
+    let yielding = p[3] == "yield";
+    let forced = p[3] == "new" || yielding;
     // "war": an authenticated peer link tells this node `set-primary other:1` - a node that is the primary itself must call a NEW election (stand down to candidate, announce, then
     // yield or claim again); any other node becomes that primary's secondary
     let war = p[3] == "war";
@@ -2160,7 +2163,8 @@ fn scenario_election(sc: &str) -> Result<Violations, String> {
             std::thread::sleep(std::time::Duration::from_millis(1));
             for m in drain(&mut rep) {
                 let parts: Vec<&str> = m.splitn(3, ' ').collect();
-                if parts.len() == 3 && parts[0] == "rp" { if let Ok(id) = parts[1].parse::<u64>() { d2.register_pending_opp(id, parts[2].to_string(), &"other:1".to_string()); } }
+                if parts.len() == 3 && parts[0] == "rp" { if let Ok(id) = parts[1].parse::<u64>() { d2.register_pending_opp(id, parts[2].to_string(), &"other:1".to_string());
+                    if yielding && parts[2].contains("election candidate") { std::thread::sleep(std::time::Duration::from_millis(4)); election_eval(&d2, 1, &"older:1".to_string()); } } }
                 rep_seen.push(m);
             }
             if h.is_finished() { break; }
@@ -2190,6 +2194,9 @@ fn scenario_election(sc: &str) -> Result<Violations, String> {
         } else {
             chk(&mut v, "C07.told-primary-is-secondary", role == ClusterRole::Secoundary && sup_msgs.iter().any(|m| m == "primary other:1") && candidacies == 0);
         }
+    } else if yielding {
+        chk(&mut v, "C07.older-candidate-wins", role == ClusterRole::Secoundary && !sup_msgs.iter().any(|m| m == "election-win self"));
+        chk(&mut v, "C07.yielded-candidate-does-not-claim", role == ClusterRole::Secoundary && !sup_msgs.iter().any(|m| m == "election-win self"));
     } else if forced || cand > own {
         // the node stands: alone it is Primary at once, otherwise it announces exactly one candidacy carrying its start time, and it never stays undecided
         if members == 1 { chk(&mut v, "C07.single-node-wins", role == ClusterRole::Primary && candidacies == 0); }
@@ -2209,6 +2216,7 @@ fn all_election_scenarios() -> Vec<String> {
         for c in ["4", "5", "6", "0", "999", "1000", "1001", "340282366920938463463374607431768211454", "340282366920938463463374607431768211455", "new", "war"] {
             out.push(format!("{}.{}.{}.{}", r, m, own, c)); } } } }
     for r in ["s", "p", "c"] { out.push(format!("alive.{}", r)); }
+    for r in ["s", "p", "c"] { out.push(format!("{}.2r.1000.yield", r)); }
     out
 }
 
@@ -2583,6 +2591,8 @@ fn scenario_http(sc: &str) -> Result<Violations, String> {
     let db = m.get("d").unwrap();
     let base = { let m2 = w2.dbs.map.read().unwrap(); m2.get("d").unwrap().connections_count() - if c2.selected_db_name().as_deref() == Some("d") { 1 } else { 0 } };
     chk(&mut v, "C20.session-released", db.connections_count() == base);
+    // ... also as every OTHER session sees it: the published `$connections` key is the counter's text again (written after the decrement, not before)
+    if let Some(k) = db.get_value("$connections".into()) { chk(&mut v, "C20.session-released", k.value == db.connections_count().to_string()); chk(&mut v, "C17.mirror", k.value == db.connections_count().to_string()); }
     let watchers_left: usize = db.watchers.map.read().unwrap().values().map(|s| s.len()).sum();
     chk(&mut v, "C20.session-released", watchers_left == 0);
     Ok(v)
@@ -2670,7 +2680,7 @@ fn family_props(fam: &str) -> &'static [&'static str] {
     match fam {
         "store" => &["C01", "C02", "C03", "C08"], "strategy" => &["C02", "C13", "C19"], "pending" => &["C15"], "ids" => &["C16"], "keymap" => &["C16"],
         "oplog" => &["C05", "C12"], "session" => &["C01", "C08", "C09"], "permchange" => &["C09"], "arbiter" => &["C06", "C13"], "watch" => &["C03"], "lines" => &[], "flood" => &[],
-        "connections" => &["C17"], "snapshot" => &["C01", "C02", "C06", "C19"], "resync" => &["C05"], "election" => &["C07"], "http" => &["C20"], "httpserver" => &["C08", "C09", "C17", "C20"], "tcpserver" => &["C03", "C17"], "race" => &["C01", "C02"], "oplogdisk" => &["C16"], "wsserver" => &["C03", "C17", "C20"],
+        "connections" => &["C17"], "snapshot" => &["C01", "C02", "C06", "C19"], "resync" => &["C05"], "election" => &["C07"], "http" => &["C20", "C17"], "httpserver" => &["C08", "C09", "C17", "C20"], "tcpserver" => &["C03", "C17"], "race" => &["C01", "C02"], "oplogdisk" => &["C16"], "wsserver" => &["C03", "C17", "C20"],
         "values" => &["C01", "C03"], "forward" => &["C08", "C09"], "resub" => &["C03"], "logthread" => &["C05", "C12", "C15"], "logroll" => &["C12", "C16"], "linktag" => &["C07"], "replica" => &["C02", "C04", "C05", "C19"], "traffic" => &["C14", "C05", "C02", "C13", "C19", "C04"],
         _ => &[],
     }
